@@ -35,6 +35,12 @@ impl core::ops::Deref for Row { type Target = [u8; 4]; fn deref(&self) -> &[u8; 
 impl Row { pub fn len(&self) -> usize { self.1 } }
 pub fn w_map_deref(r: Row) -> [u16; 4] { konst::array::map!(r, |x| m0::<u8, u16>(x)) }
 pub fn w_map_deref_ref(r: &Row) -> [u16; 4] { konst::array::map!(r, |x| m0::<u8, u16>(x)) }
+#[inline(never)] pub fn mkf() -> fn(u8) -> u16 { loop {} }
+#[inline(never)] pub fn mkg() -> fn(usize) -> u16 { loop {} }
+pub fn w_map_fexpr(a: [u8; 4]) -> [u16; 4] { konst::array::map!(a, mkf()) }
+pub fn w_map__fexpr(a: [u8; 4]) -> [u16; 4] { konst::array::map_!(a, mkf()) }
+pub fn w_from_fn_fexpr() -> [u16; 4] { konst::array::from_fn!(mkg()) }
+pub fn w_from_fn__fexpr() -> [u16; 4] { konst::array::from_fn_!(mkg()) }
 pub fn w_map_<T, U>(a: [T; 4]) -> [U; 4] { konst::array::map_!(a, |x| m0::<T, U>(x)) }
 pub fn w_map__break<T, U>(a: [T; 4]) -> [U; 4] { konst::array::map_!(a, |x| { if cond() { break } m0::<T, U>(x) }) }
 pub fn w_from_fn_<U>() -> [U; 5] { konst::array::from_fn_!(|i| g0::<U>(i)) }
@@ -59,6 +65,7 @@ def run(ctx):
     init_sites(ctx, prog)
     deps(ctx, prog)
     deps_byval(ctx, prog)
+    arg_once(ctx, prog)
     builder(ctx, ctx.program("FULL"))
     byval(ctx, prog)
     twopass(ctx, prog)
@@ -66,8 +73,9 @@ def run(ctx):
     from .. import macrolint
     macrolint.hygiene_rule(ctx, ["array_map", "array_from_fn", "__array_map_by_val", "__array_from_fn2", "iter_collect_const", "str_from_iter"], facts.REPO)
     ctx.floor("HYGIENE", 16)
-    ctx.floor("INIT", 18)
+    ctx.floor("INIT", 20)
     ctx.floor("DEP", 4)
+    ctx.floor("ARG-ONCE", 4)
     ctx.floor("BUILDER", 5)
     ctx.floor("BYVAL", 3)
     ctx.floor("TWOPASS", 6)
@@ -161,6 +169,22 @@ def deps_byval(ctx, prog):
     if msg:
         ctx.violation("DEP", name, "%s: %s" % (name, msg))
     ctx.instance("DEP", name, sample={"witness": name})
+
+
+def arg_once(ctx, prog):
+    """ARG-ONCE: a mapper given as an expression that *produces* the function (`map!(a, make_fn())`) is evaluated exactly once, before
+    the element loop - std evaluates a method argument once, so a stateful or side-effecting factory must not run per element"""
+    for name, mk in (("w_map_fexpr", "w11::mkf"), ("w_map__fexpr", "w11::mkf"), ("w_from_fn_fexpr", "w11::mkg"), ("w_from_fn__fexpr", "w11::mkg")):
+        b = prog.get("w11::" + name)
+        if b is None:
+            ctx.violation("ARG-ONCE", name, "witness %s missing" % name)
+            continue
+        sites = [bb for bb, t in b.calls() if t.get("callee") and t["callee"]["path"] == mk]
+        in_loop = [bb for bb in sites if any(bb in blocks for blocks in b.loops().values())]
+        if len(sites) != 1 or in_loop:
+            ctx.violation("ARG-ONCE", name, "%s: the expression that yields the mapper is evaluated %s (expected: once, before the loop)" % (
+                name, "inside the element loop" if in_loop else "%d times" % len(sites)), b.file())
+        ctx.instance("ARG-ONCE", name, sample={"witness": name})
 
 
 def builder(ctx, prog):
